@@ -27,5 +27,27 @@ def main(ctx):
     n_gen = ctx.pick(32, 240)
     jobs = suite.jobs_for(ctx, PROPS, n_gen, sh_ev, slow_ev, gen_ev, shipped=names,
                           families=["soft_cells", "hard_cells", "soft_cells_far", "hard_cells"], seeds=ctx.pick((0,), (0, 1, 2)))
+    # charge filter with negative charges: relevance is 'charge != 0', not 'charge > 0'
+    for name in ("water/coulomb_power_bounded_lj_cell_bounded", "water/coulomb_cell_veto_lj_cell_veto"):
+        if ctx.quick and name.endswith("cell_veto"):
+            continue
+        jobs.append({"spec": {"kind": "shipped", "name": name, "end": 1e6,
+                              "overrides": {"OxygenIndicator": {"charge_values": "0, -1, 0"}}},
+                     "props": list(PROPS), "seed": ctx.seed * 1000 + 77, "max_events": slow_ev, "label": name + "(negative filter charge)"})
+    # directed: start lattice, chain length and cell side commensurate -> legs end exactly on cell faces (time ties between
+    # the end-of-chain / lifting event and the cell-boundary event)
+    for s in range(ctx.pick(4, 16)):
+        # all coordinates on a 0.025 lattice (cell sides 0.25 and 0.225 are multiples of it), pairwise distinct in x and in y
+        # (an exactly head-on pair would make the 1/r inversion divide by zero, which is C02's subject)
+        pos = [[0.025 * ((7 * i + s) % 40), 0.025 * ((9 * i + 5 * s + i * i) % 36)] for i in range(6)]
+        while len({p[0] for p in pos}) < 6 or len({p[1] for p in pos}) < 6:
+            pos = [[(p[0] + 0.025 * j) % 1.0, (p[1] + 0.025 * 2 * j) % 0.9] for j, p in enumerate(pos)]
+        spec = {"kind": "spheres", "family": "commensurate_lattice",
+                "params": {"dim": 2, "lengths": [1.0, 0.9], "n": 6, "potential": "hard_sphere", "radius": 1e-4,
+                           "scheduler": "heap_scheduler" if s % 2 else "list_scheduler", "sampling_interval": 0.731,
+                           "chain_time": 0.05, "speed": 0.5, "end": 1e6, "initial_direction": s % 2, "initial_active": s % 6,
+                           "positions": pos, "cells": {"cells_per_side": [4, 4], "layers": 1, "max_occupants": 0, "far": False}}}
+        jobs.append({"spec": spec, "props": list(PROPS), "seed": ctx.seed * 1000 + 500 + s, "max_events": 1500,
+                     "label": f"gen-commensurate_lattice-{s}"})
     suite.run_suite(ctx, PROPS, jobs, timeout=ctx.pick(900, 3000))
     required(ctx)
